@@ -55,3 +55,64 @@ def named(A, names):
         if msg.endswith(': ' + nm):
             return cid
     return None
+
+
+class Step:
+    "one non-log action of a trace, numbers in stored units (ints; Fractions for rational)"
+    __slots__ = ('i', 'tag', 'msg', 'round', 'st', 'vote', 'q', 'nt', 'residual', 'surplus', 'votes',
+                 'ballots', 'wdvotes', 'A')
+
+
+def steps(t):
+    "list of Step for the non-log actions of trace t"
+    u = t.units
+    out = []
+    for i, A in enumerate(t.actions):
+        if A['tag'] == 'log':
+            continue
+        s = Step()
+        s.i = i
+        s.A = A
+        s.tag = A['tag']
+        s.msg = A['msg']
+        s.round = A['round']
+        cs = A['cstate']
+        s.st = {c: trace.status(d) for c, d in cs.items()}
+        s.vote = {c: u(d['vote']) for c, d in cs.items() if 'vote' in d}
+        s.q = u(A['quota']) if A.get('quota') is not None else None
+        s.nt = u(A['nt_votes']) if 'nt_votes' in A else None
+        s.residual = u(A['residual']) if A.get('residual') is not None else None
+        s.surplus = u(A['surplus']) if A.get('surplus') is not None else None
+        s.votes = u(A['votes']) if A.get('votes') is not None else None
+        sd = t.side[i] if i < len(t.side) else None
+        s.ballots = sd[0] if sd else None
+        s.wdvotes = sd[1] if sd else None
+        out.append(s)
+    return out
+
+
+def names_of(t):
+    return {c.cid: c.name for c in t.E.C}
+
+
+def has_quota(t, v, q):
+    "does tally v (units) hold the quota q, as the rule itself evaluates it?"
+    if t.kind == 'rational':
+        return v > q
+    if t.kind == 'guarded' and t.V.guard:
+        return v - q >= t.geps          # Guarded '>' : differ by at least half a unit of precision
+    return v >= q
+
+
+def g_eq(t, a, b):
+    "a == b in the arithmetic's own comparison (Guarded tolerance), on units"
+    if t.kind == 'guarded':
+        return abs(a - b) < t.geps
+    return a == b
+
+
+def g_lt(t, a, b):
+    "a < b in the arithmetic's own comparison"
+    if t.kind == 'guarded':
+        return b - a >= t.geps
+    return a < b
